@@ -340,7 +340,12 @@ def d(ck: Check) -> None:
     for n_ in own_walk(fm.f.node):
         if isinstance(n_, ast.Assign) and len(n_.targets) == 1 and text(n_.targets[0]) == net0:
             v_ = n_.value
-            okg = isinstance(v_, ast.Call) and callee_name(v_) == "AsynchronousGraph" and len(v_.args) == 1 and text(v_.args[0]) == net0
+            def _graph_of_given(e_) -> bool:
+                if isinstance(e_, ast.IfExp):       # `AsynchronousGraph(n) if isinstance(n, BooleanNetwork) else n`
+                    return _graph_of_given(e_.body) and _graph_of_given(e_.orelse)
+                return (isinstance(e_, ast.Name) and e_.id == net0) or (
+                    isinstance(e_, ast.Call) and callee_name(e_) == "AsynchronousGraph" and len(e_.args) == 1 and text(e_.args[0]) == net0)
+            okg = _graph_of_given(v_)
             if not okg:
                 probs.append(f"line {n_.lineno}: the LDOIs are computed on `{text(v_)[:60]}`, not on the given network: a transformed "
                              f"network (constants inlined, inputs fixed) has other strict percolations than the one that was asked about")
